@@ -314,10 +314,12 @@ LEVEL_TEXT = ('Proof: for the tables regenerated from finite_diff on every run, 
               'Both statements are lifted to arrays of EVERY shape and every axis (Lib/AxisR: adjoint, extensionality '
               'and additivity of apply-along-axis): PartialDerivative, Gradient* = -Divergence, Divergence* = -Gradient, '
               'the Laplacian is self-adjoint with the SAME pad mode for the six modes the class accepts, and the '
-              'constant-padding variant is affine with the zero-padding scheme as exact difference quotient. '
+              'constant-padding variant is affine with the zero-padding scheme as exact difference quotient; finite_diff is '
+              'linear in (pad_const, array) for all 30 pairs (the regenerated tables contain only linear forms); the model '
+              'executed at Q is proved to be the restriction of the model proved at R (Q2R transfer). '
               'order2 x forward/backward is proved to violate the literal statement (recorded finding) and what it '
               'computes instead is proved. The interpreter is tied to the code by an exact correspondence on all '
-              'modes x sizes 2..7 and on the N-d operators (1-3 d).')
+              'modes x sizes 1..7 and on the N-d operators (1-3 d, nodes in cell centres or on the boundary per side).')
 LEVEL_NOTE = ('Trusted: the translator (fail-closed, small grammar), the hand-written interpreter of sequential '
               'out[k] = / += / -= statements (validated by the correspondence incl. aliasing on sizes 2-4), the N-d '
               'composition model C13/ModelNd.v (validated by the N-d correspondence), NumPy slicing; exact arithmetic '
